@@ -119,6 +119,34 @@ def cli_leg(case, workdir, ssm_dir, stub_home):
          "left": sorted(x for x in os.listdir(os.path.join(d, os.path.dirname(base))) if x.endswith((".st", ".wc", ".eq", ".sp")))}
     return r
 
+def double_star(case):
+    """some sub-SYSTEM port declared with a star is bound with a star (the two must cancel)"""
+    g = case["_gen"]
+    for it in g.items.values():
+        if it["kind"] != "sys": continue
+        for st, inst in zip([x for x in it["stmts"] if x[0] == "component"], it["insts"]):
+            t = inst["item"]
+            if t["kind"] != "sys": continue
+            decl = t["ins"] + t["outs"]; bind = st[4] + st[5]
+            if any(b[1] and d[1] for b, d in zip(bind, decl)): return True
+    return False
+
+def neutralise(rng, case):
+    """every quoted region of every component becomes all-N, so that the library stays designable whatever the
+    orientation of its signals (the orientation is then visible only in the finished sequences)"""
+    g = case["_gen"]
+    for it in g.items.values():
+        if it["kind"] != "comp": continue
+        for st in it["prog"]["body"]:
+            its = st[2] if st[0] == "seq" else st[3] if st[0] == "strand" else []
+            for x in its:
+                if x[0] == "nuc":
+                    for part in x[1]: part[1] = "N"
+        g.files[it["path"]] = pepper.comp_text_tpl(rng, it["prog"], it["params"])
+        for e in g.entries:
+            if e[0] == it["path"]: e[3] = [pepper.sexp_nums(it["prog"]["decl"]), pepper.sexp_nums(it["prog"]["body"])]
+    case["files"] = g.files; case["entries"] = g.entries
+
 def run(tier, seed, build):
     rng = random.Random(seed * 173 + 6)
     n = 60 if tier == "quick" else 800
@@ -133,6 +161,11 @@ def run(tier, seed, build):
                  "includes": [], "base": "prog", "args": [], "_prog": prog}
         else:
             c = c02.gen_case(rng)
+            if i % 4 == 1:      # every fourth case: a nested system whose starred port is bound with a star
+                for _ in range(300):
+                    if double_star(c): break
+                    c = c02.gen_case(rng)
+                neutralise(rng, c)
         c["seed"] = rng.randrange(10**6)
         cases.append(c)
     impl = fw.run_impl("props.c06", "impl_case", [{k: v for k, v in c.items() if not k.startswith("_")} for c in cases], per_case_timeout=120)
